@@ -207,12 +207,12 @@ func (r *Recorder) Exhaustive()             { r.mu.Lock(); r.exhaustive = true; 
 
 // SaveReplay writes a JSON case descriptor into the replay directory and
 // returns its path.
-func (r *Recorder) SaveReplay(name string, v any) string {
+func (r *Recorder) SaveReplay(test, name string, v any) string {
 	dir := envOr("VERIF_REPLAYS", filepath.Join(os.TempDir(), "verif-replays"))
 	dir = filepath.Join(dir, r.Property)
 	_ = os.MkdirAll(dir, 0o755)
 	p := filepath.Join(dir, name+".json")
-	b, _ := json.MarshalIndent(v, "", " ")
+	b, _ := json.MarshalIndent(map[string]any{"test": test, "note": "deterministic enumeration: re-running the named test reproduces this case", "case": v}, "", " ")
 	_ = os.WriteFile(p, b, 0o644)
 	return p
 }
